@@ -66,11 +66,11 @@ type Reader struct {
 	FaultErr error
 	Ch       Chunker
 
-	Pos      int // bytes delivered so far
-	Reads    int
-	PostEOF  int // Read calls after the end was signalled
-	MaxAsk   int // largest len(p) seen
-	lastZero bool
+	Pos                  int // bytes delivered so far
+	Reads                int
+	PostEOF              int // Read calls after the end was signalled
+	MaxAsk               int // largest len(p) seen
+	lastZero             bool
 	zeroLeft, productive int
 }
 
